@@ -98,11 +98,40 @@ const (
 )
 
 func (index *PatternIndex) add(ctx *Context, pairs []piPair, id string) error {
-	return index.mod(ctx, pairs, id, opAdd)
+	err := index.mod(ctx, pairs, id, opAdd)
+	if err != nil {
+		// (An add that fails half-way has made nodes already.)
+		index.prune()
+	}
+	return err
 }
 
 func (index *PatternIndex) rem(ctx *Context, pairs []piPair, id string) error {
-	return index.mod(ctx, pairs, id, opRem)
+	err := index.mod(ctx, pairs, id, opRem)
+	index.prune()
+	return err
+}
+
+// prune removes the nodes that no pattern leads through (any more), and
+// reports whether this node is one of them.
+//
+// A search decides by the mere presence of a key's node whether it has
+// to look at the event's value for that key - and gives the whole event
+// up if it cannot handle that value (an array it cannot sort, say).  So
+// a pattern that is gone must not leave its nodes behind.
+func (index *PatternIndex) prune() bool {
+	for k, sub := range index.String {
+		if sub == nil || sub.prune() {
+			delete(index.String, k)
+		}
+	}
+	if index.Var != nil && index.Var.prune() {
+		index.Var = nil
+	}
+	if index.Map != nil && index.Map.prune() {
+		index.Map = nil
+	}
+	return len(index.String) == 0 && index.Var == nil && index.Map == nil && len(index.Ids) == 0
 }
 
 func picast(ctx *Context, x interface{}) interface{} {
